@@ -37,6 +37,7 @@ func KeyConcs() []KeyConc {
 		{Name: "ascii", Keys: [][]byte{[]byte("a"), []byte("b"), []byte("c"), []byte("d")}},
 		{Name: "nul-ff", Keys: [][]byte{k(0), k(0, 0), k(0, 0xff), k(0xff)}},
 		{Name: "prefix", Keys: [][]byte{[]byte("a"), k('a', 0), []byte("ab"), []byte("b")}},
+		{Name: "shrink", Keys: [][]byte{[]byte("aaa"), []byte("b"), []byte("ba"), []byte("bb")}}, // a long key, a shorter one, then extensions of it
 		{Name: "len511", Keys: [][]byte{append(append([]byte{}, p510...), 1), append(append([]byte{}, p510...), 2), append(append([]byte{}, p510...), 0x80), append(append([]byte{}, p510...), 0xff)}},
 		{Name: "int4-zero", IntKey: true, HasZero: true, Keys: [][]byte{U32(0), U32(1), U32(256), U32(0x80000001)}},
 		{Name: "int8-zero", IntKey: true, HasZero: true, Keys: [][]byte{U64(0), U64(255), U64(1 << 32), U64(1<<63 + 5)}},
@@ -183,7 +184,7 @@ func cmdC19(args []string) error {
 		for ci, kc := range concs {
 			// quick tier: the first two byte concretisations and the integer ones on every row,
 			// the others on a seeded third of the rows
-			if tierName == "quick" && (ci == 2 || ci == 3) && rng.Intn(3) != 0 {
+			if tierName == "quick" && (ci == 2 || ci == 4) && rng.Intn(3) != 0 {
 				continue
 			}
 			dbi := dbis[ci]
